@@ -79,7 +79,9 @@ skipp(__skipspec_t ss, struct dt_dt_s dt)
 	if (ss == 0) {
 		return 0;
 	}
-	dow = dt_get_wday(dt.d);
+	/* month and year steps leave days like Jun 31 behind, the weekday
+	 * is that of the date that will be printed */
+	dow = dt_get_wday(dt_fixup(dt).d);
 	/* just check if the bit in the bitset `skip' is set */
 	return (ss & (1 << dow)) != 0;
 }
